@@ -689,7 +689,9 @@ func TestPropCLIHistory(t *testing.T) {
 		}
 		if c.Step2.Dist >= 2 && c.Step2.Ratio == 1 {
 			_, dcl := distClasses(view(c.Recs, c.Step2.attr()), c.Step2.Dist)
-			cl = append(cl, dcl...)
+			for _, x := range dcl {
+				cl = append(cl, "hist:"+x)
+			}
 			cl = append(cl, "hist:second_run_compared_with_the_model_of_distance>=2")
 		}
 		// non-trivial: the first run links something (there is a result to leave behind) and
